@@ -49,19 +49,36 @@ class InterferenceGraph(MaskableGraph):
 
     def calculate_interference(self, flowgraph):
         """Construct interference graph"""
+        # The liveness sets contain registers which hash by identity, so
+        # their iteration order differs from run to run. Number the
+        # registers in order of first appearance in the code, and visit
+        # them in this order, such that nodes and edges are always created
+        # in the same sequence.
+        order = {}
+        for n in flowgraph:
+            for ins in n.instructions:
+                for tmp in ins.used_registers:
+                    order.setdefault(tmp, len(order))
+                for tmp in ins.defined_registers:
+                    order.setdefault(tmp, len(order))
+
         for n in flowgraph:
             for ins in n.instructions:
                 # ins.live_out |= ins.
-                for tmp in ins.live_in:
+                for tmp in sorted(ins.live_in, key=order.__getitem__):
                     self.get_node(tmp)
 
                 # Live out and zero length defined variables:
-                live_and_def = ins.live_out | ins.kill
+                live_and_def = sorted(
+                    ins.live_out | ins.kill, key=order.__getitem__
+                )
 
                 # Add interfering edges:
                 for tmp in live_and_def:
                     n1 = self.get_node(tmp)
-                    for tmp2 in live_and_def - {tmp}:
+                    for tmp2 in live_and_def:
+                        if tmp2 is tmp:
+                            continue
                         n2 = self.get_node(tmp2)
                         self.add_edge(n1, n2)
 
